@@ -52,6 +52,48 @@ fn main() {
 ]
 
 
+CYCLE_BODIES = [
+    "let f = |x| x(x);",
+    "let pick = |thunk| if true { thunk } else { thunk() };",
+    "let pick = |thunk| if true { thunk() } else { thunk };",
+    "let pick = |thunk| match 1 { 0 => thunk, _ => thunk(2) };",
+    "let g = |h| h(h)(h);",
+    "let w = |a| (a, a(1)); let _ = w(w);",
+    "let k = |f| |x| f(f)(x);",
+    "let o = |g| g(|z| g);",
+    "let s = |c| if true { c } else { (c, c) };",
+    "let s = |c| if true { (1, c) } else { c };",
+    "let s = |c| if true { c } else { [c] };",
+    "let s = |c| if true { c } else { ref(c) };",
+    "let s = |c| if true { c } else { vec_push(vec_new(), c) };",
+    "let s = |c| if true { c } else { |u: int32| c };",
+    "let s = |c| if true { c } else { || c };",
+    "let s = |c, d| if true { c(d) } else { d(c) };",
+    "let s = |c| if true { c } else { Bx { v: c } };",
+    "let s = |c| if true { c } else { Sm(c) };",
+    "let s = |c| if true { c } else { Sm(Bx { v: (c, 1) }) };",
+    "let v = vec_new(); let v = vec_push(v, v);",
+    "let r = ref(|x: int32| x); let _ = ref_set(r, |y| ref_get(r));",
+    "let a = |q| gid(q)(q);",
+    "let a = |q| gid(q(q));",
+    "let t = |x| (x, x); let u = t(t); let _ = u.0(u);",
+    "let z = |p| p.0(p);",
+    "let m = |e| match e { Sm(i) => i(e), Nn => e };",
+    "let y = |f| f(|x| f(x)(x));",
+    "let l = |n| if n { l0(n) } else { n(l0) };",
+]
+
+
+def typer_cycles(rng, n):
+    head = "struct Bx[T] { v: T }\nenum Op[T] { Nn, Sm(T) }\nfn gid[T](x: T) -> T { x }\nfn l0[T](x: T) -> T { x }\n"
+    out = [head + "fn main() { %s () }\n" % b for b in CYCLE_BODIES]
+    for _ in range(max(0, n - len(out))):
+        a, b = rng.sample(CYCLE_BODIES, 2)
+        b2 = b.replace("let s =", "let s2 =").replace("let pick =", "let pick2 =").replace("let f =", "let f2 =")
+        out.append(head + "fn helper(k: int32) -> int32 { %s k }\nfn main() { %s let _ = helper(1); () }\n" % (b2, a))
+    return out
+
+
 def mutate(rng, t):
     k = rng.random()
     if k < 0.2:
@@ -205,6 +247,15 @@ def check(run):
         with open(os.path.join(d, "main.gom"), "w") as f:
             f.write(src)
         cli_cases.append((d, ["run", "main.gom"], {"main.gom": src}))
+    # programs that ask the typer for a cyclic (infinite) type in every way a type can contain another: function
+    # parameter and result, tuple, array, Ref, Vec, generic struct and enum, closures returning themselves; each must end
+    # in diagnostics. Run through the command line because a stack overflow cannot be caught in-process.
+    for j, src in enumerate(typer_cycles(rng, 30 if run.tier == "quick" else 300)):
+        d = os.path.join(croot, "cyc%03d" % j)
+        os.makedirs(d)
+        with open(os.path.join(d, "main.gom"), "w") as f:
+            f.write(src)
+        cli_cases.append((d, [rng.choice(["run", "run", "check"]), "main.gom"] if False else ["run", "main.gom"], {"main.gom": src}))
     vlib.build_cli()
     with ThreadPoolExecutor(max_workers=vlib.NCPU) as ex:
         cli_res = list(ex.map(lambda c: vlib.run_cli(c[1], c[0]), cli_cases))
